@@ -49,7 +49,8 @@ def main():
     from outrank.feature_transformations.ranking_transformers import FeatureTransformerGeneric as FTG
     rng = np.random.default_rng(1200 + h.seed)
     quick = h.tier == 'quick'
-    vault = V._tr_global_namespace
+    import copy as _copy
+    vault = _copy.deepcopy({k: dict(v) for k, v in V._tr_global_namespace.items()})     # snapshot: constructing transformers must not change the presets
     grid = [-1e6, -7.5, -1.0, -0.5, 0.0, 0.005, 0.01, 0.02, 0.04, 0.08, 0.16, 0.32, 0.5, 0.64, 0.96, 1.0, 1.5, 2.0, 3.0, 4.0, 7.99,
             8.0, 8.01, 16.0, 32.0, 64.0, 95.9, 96.0, 96.1, 100.0, 1e4, 1e12]
     grid += [float(x) for x in rng.uniform(-5, 120, 20 if quick else 300)]
@@ -84,6 +85,10 @@ def main():
             h.fail('FeatureTransformerGeneric.__init__.ensures.union_of_presets', {'preset': ','.join(lst)},
                    f'{len(got)} entries, union has {len(want)}',
                    obligations=['ranking_transformers.FeatureTransformerGeneric.__init__/ensures.union_of_presets'])
+        if {k: dict(v) for k, v in V._tr_global_namespace.items()} != vault:
+            h.fail('FeatureTransformerGeneric.__init__.presets_untouched', {'preset': ','.join(lst)},
+                   'building a transformer changed the module-level presets (later transformers see other formulas)')
+            break
     # ---- (3) get_vals and (4) the keep/drop rule on the real construct_new_features
     for case in range(8 if quick else 80):
         n = int(rng.integers(20, 200))
@@ -116,7 +121,7 @@ def main():
                 Xc = np.array([0.0 if len(s.replace('"', '')) == 0 else float(s.replace('"', '')) for s in cols[c]])
                 for name, text in vault[preset].items():
                     with np.errstate(all='ignore'):
-                        arr = np.asarray(eval(text, {'np': np, 'X': Xc})).astype(str)
+                        arr = np.broadcast_to(np.asarray(eval(text, {'np': np, 'X': Xc})), Xc.shape).astype(str)
                     u, cnt = np.unique(arr, return_counts=True)
                     keep = len(u) > 1 and cnt.max() / cnt.sum() < 0.80 and np.count_nonzero(arr == 'nan') / len(arr) < 0.75
                     col = f'{c}{name}'
@@ -128,6 +133,35 @@ def main():
                                f'rule says keep={keep}, emitted={col in out.columns}')
                     elif keep and list(out[col]) != list(arr):
                         h.fail('construct_new_features.values_are_formula_as_text', wit, 'emitted values differ from str(formula(X))')
+    # ---- huge integer-looking text (epoch millis, byte counters) and long columns: values are still the formula on the float parse
+    big = {'ts': [str(int(v)) for v in rng.integers(1_600_000_000_000, 1_700_000_000_000, 40)],
+           'nbytes': [str(int(v)) for v in rng.integers(3_000_000_000, 9_000_000_000, 40)],
+           'cat': ['a'] * 40}
+    long_n = 40000
+    trend = np.concatenate([np.linspace(1, 50, 33000), np.linspace(500, 900, long_n - 33000)])
+    long_cols = {'trend': [repr(float(round(v, 3))) for v in trend], 'cat': ['a'] * long_n}
+    for frame, numeric, presets in ((big, ['ts', 'nbytes'], ('default',)), (long_cols, ['trend'], ('minimal', 'default'))):
+        df = pd.DataFrame(frame)
+        for preset in presets:
+            tr = FTG(set(numeric), preset)
+            with np.errstate(all='ignore'):
+                out = tr.construct_new_features(df.copy())
+            for c in numeric:
+                Xc = np.array([float(s) for s in frame[c]])
+                for name, text in vault[preset].items():
+                    with np.errstate(all='ignore'):
+                        arr = np.broadcast_to(np.asarray(eval(text, {'np': np, 'X': Xc})), Xc.shape).astype(str)
+                    u, cnt = np.unique(arr, return_counts=True)
+                    keep = len(u) > 1 and cnt.max() / cnt.sum() < 0.80 and np.count_nonzero(arr == 'nan') / len(arr) < 0.75
+                    col = f'{c}{name}'
+                    h.record(('scale', preset, col), True)
+                    wit = {'preset': preset, 'column': col, 'rows': len(Xc), 'first_values': frame[c][:5]}
+                    if keep != (col in out.columns):
+                        h.fail('construct_new_features.keep_iff_not_degenerate', wit, f'rule says keep={keep}, emitted={col in out.columns}')
+                    elif keep and list(out[col]) != list(arr):
+                        bad = [i for i, (a_, b_) in enumerate(zip(out[col], arr)) if a_ != b_][:3]
+                        h.fail('construct_new_features.values_are_formula_as_text', dict(wit, rows_differing=bad),
+                               f'emitted {[out[col][i] for i in bad]} vs formula {[arr[i] for i in bad]}')
     h.bounded_note('formula == function named, on a grid incl. negatives, zeros, thresholds +- eps, huge values; preset unions; '
                    'keep/drop rule and emitted text on the real construct_new_features', 'grid of %d points x all entries; random '
                    'columns with zero/empty shares around 75%%/80%%' % len(grid), h.evaluations)
